@@ -5,8 +5,8 @@
 //! recomputes every cached summary (correspondence) and judges the property's clauses.
 //!
 //! usage: c02 <ops-file> --langdump <tsv-cunit_c02> [--spec <file>] [lang...]
-//! spec line: `<lang> <texthex|-> <edits|->`   edits = `start,old_end,inshex|...` (applied one by
-//! one with Tree::edit, then ONE re-parse with the edited old tree).
+//! spec line: `<lang> <texthex|-> <edits|->[@s-e,s-e…]`   edits = `start,old_end,inshex|...` (applied
+//! one by one with Tree::edit, then ONE re-parse with the edited old tree); `@…` = included ranges.
 use std::collections::HashSet;
 use std::io::Write;
 use std::ops::ControlFlow;
@@ -213,17 +213,29 @@ fn emit_case(
     parser: &mut Parser,
     text: &[u8],
     edits: &[TextEdit],
+    ranges: &[(usize, usize)],
     kind: &str,
 ) {
     let enc_edits: Vec<String> =
         edits.iter().map(|e| format!("{},{},{}", e.start, e.old_end, if e.ins.is_empty() { "-".to_string() } else { hex(&e.ins) })).collect();
+    let enc_ranges: Vec<String> = ranges.iter().map(|(a, b)| format!("{a}-{b}")).collect();
     let spec = format!(
-        "{} {} {}",
+        "{} {} {}{}",
         lc.id,
         if text.is_empty() { "-".to_string() } else { hex(text) },
-        if enc_edits.is_empty() { "-".to_string() } else { enc_edits.join("|") }
+        if enc_edits.is_empty() { "-".to_string() } else { enc_edits.join("|") },
+        if enc_ranges.is_empty() { String::new() } else { format!("@{}", enc_ranges.join(",")) }
     );
+    let ts_ranges: Vec<tree_sitter::Range> = ranges
+        .iter()
+        .map(|(a, b)| tree_sitter::Range { start_byte: *a, end_byte: *b, start_point: point_at(text, (*a).min(text.len())), end_point: point_at(text, (*b).min(text.len())) })
+        .collect();
+    if parser.set_included_ranges(&ts_ranges).is_err() {
+        let _ = parser.set_included_ranges(&[]);
+        return;
+    }
     let o = parse_budgeted(parser, text, None, budget_for(text.len()));
+    let _ = parser.set_included_ranges(&[]);
     let mut calls = o.callbacks;
     let mut exhausted = o.exhausted;
     let mut cur = text.to_vec();
@@ -266,7 +278,9 @@ fn emit_case(
     writeln!(out, "run").unwrap();
 }
 
-fn parse_spec(line: &str) -> Option<(String, Vec<u8>, Vec<TextEdit>)> {
+type Spec = (String, Vec<u8>, Vec<TextEdit>, Vec<(usize, usize)>);
+
+fn parse_spec(line: &str) -> Option<Spec> {
     let line = line.split('#').next().unwrap_or("");
     let parts: Vec<&str> = line.split_whitespace().collect();
     let parts = if parts.len() == 4 { &parts[1..] } else { &parts[..] };
@@ -275,8 +289,17 @@ fn parse_spec(line: &str) -> Option<(String, Vec<u8>, Vec<TextEdit>)> {
     }
     let text = if parts[1] == "-" { vec![] } else { unhex(parts[1]) };
     let mut edits = Vec::new();
-    if parts[2] != "-" {
-        for e in parts[2].split('|') {
+    let (edit_part, range_part) = match parts[2].split_once('@') {
+        Some((a, b)) => (a, b),
+        None => (parts[2], ""),
+    };
+    let mut ranges = Vec::new();
+    for r in range_part.split(',').filter(|r| !r.is_empty()) {
+        let (a, b) = r.split_once('-')?;
+        ranges.push((a.parse().ok()?, b.parse().ok()?));
+    }
+    if edit_part != "-" {
+        for e in edit_part.split('|') {
             let f: Vec<&str> = e.split(',').collect();
             if f.len() != 3 {
                 return None;
@@ -284,7 +307,7 @@ fn parse_spec(line: &str) -> Option<(String, Vec<u8>, Vec<TextEdit>)> {
             edits.push(TextEdit { start: f[0].parse().ok()?, old_end: f[1].parse().ok()?, ins: if f[2] == "-" { vec![] } else { unhex(f[2]) } });
         }
     }
-    Some((parts[0].to_string(), text, edits))
+    Some((parts[0].to_string(), text, edits, ranges))
 }
 
 fn special_docs(rng: &mut Rng, base: &[u8], toks: &[gen::Tok], thorough: bool) -> Vec<(String, Vec<u8>)> {
@@ -438,12 +461,12 @@ fn main() {
 
     let run_specs = |specs: &str, tag: &str, out: &mut std::io::BufWriter<std::fs::File>, st: &mut Stats, loaded: &mut Vec<LangCtx>, get_lang: &mut dyn FnMut(&str, &mut std::io::BufWriter<std::fs::File>, &mut Vec<LangCtx>) -> Option<usize>| {
         for (i, line) in specs.lines().enumerate() {
-            if let Some((lang, text, edits)) = parse_spec(line) {
+            if let Some((lang, text, edits, ranges)) = parse_spec(line) {
                 if let Some(k) = get_lang(&lang, out, loaded) {
                     let lc = &loaded[k];
                     let mut parser = Parser::new();
                     parser.set_language(&lc.built.language).unwrap();
-                    emit_case(out, st, &format!("{lang}-{tag}{i}"), lc, &mut parser, &text, &edits, tag);
+                    emit_case(out, st, &format!("{lang}-{tag}{i}"), lc, &mut parser, &text, &edits, &ranges, tag);
                 }
             }
         }
@@ -461,7 +484,7 @@ fn main() {
     }
     let mut rng = Rng::new(seed_from_env());
     let langs: Vec<String> = if only.is_empty() { zoo::list() } else { only };
-    let docs_per_lang = if thorough { 120 } else { 14 };
+    let docs_per_lang = if thorough { 120 } else { 30 };
     let mut case_no = 0usize;
     for id in langs {
         let k = match get_lang(&id, &mut out, &mut loaded) {
@@ -482,11 +505,22 @@ fn main() {
                 base_toks = toks.clone();
             }
             case_no += 1;
-            emit_case(&mut out, &mut st, &format!("{id}-{case_no}"), lc, &mut parser, &text, &[], "sentence");
+            emit_case(&mut out, &mut st, &format!("{id}-{case_no}"), lc, &mut parser, &text, &[], &[], "sentence");
             // mutated sentence
             let m = gen::mutate_bytes(&mut rng, &text);
             case_no += 1;
-            emit_case(&mut out, &mut st, &format!("{id}-{case_no}"), lc, &mut parser, &m, &[], "mutated");
+            emit_case(&mut out, &mut st, &format!("{id}-{case_no}"), lc, &mut parser, &m, &[], &[], "mutated");
+            // included ranges: 1-3 ranges inside the text, cut at token boundaries or anywhere (incl. empty, adjacent)
+            {
+                let n = text.len();
+                let mut cuts: Vec<usize> = (0..rng.range(2, 6))
+                    .map(|_| if !bounds.is_empty() && rng.chance(2, 3) { *rng.pick(&bounds) } else { rng.below(n + 1) })
+                    .collect();
+                cuts.sort();
+                let ranges: Vec<(usize, usize)> = cuts.chunks(2).filter(|c| c.len() == 2).map(|c| (c[0], c[1])).collect();
+                case_no += 1;
+                emit_case(&mut out, &mut st, &format!("{id}-{case_no}"), lc, &mut parser, &text, &[], &ranges, "included-ranges");
+            }
             // edit history + re-parse (on the sentence and on the mutated one)
             let mut alphabet: Vec<Vec<u8>> = toks.iter().take(12).map(|t| t.text.clone().into_bytes()).collect();
             alphabet.extend([b" ".to_vec(), b"\n".to_vec(), b"x".to_vec(), b"(".to_vec(), b"?".to_vec(), "é".as_bytes().to_vec(), b"\r\n".to_vec(), vec![0xff]]);
@@ -504,16 +538,16 @@ fn main() {
                     edits.push(te);
                 }
                 case_no += 1;
-                emit_case(&mut out, &mut st, &format!("{id}-{case_no}"), lc, &mut parser, src, &edits, "edited-reparsed");
+                emit_case(&mut out, &mut st, &format!("{id}-{case_no}"), lc, &mut parser, src, &edits, &[], "edited-reparsed");
             }
         }
         for (kind, text) in special_docs(&mut rng, &base, &base_toks, thorough) {
             case_no += 1;
-            emit_case(&mut out, &mut st, &format!("{id}-{case_no}"), lc, &mut parser, &text, &[], &kind);
+            emit_case(&mut out, &mut st, &format!("{id}-{case_no}"), lc, &mut parser, &text, &[], &[], &kind);
         }
         for (kind, text) in nest_docs(&id, thorough) {
             case_no += 1;
-            emit_case(&mut out, &mut st, &format!("{id}-{case_no}"), lc, &mut parser, &text, &[], &kind);
+            emit_case(&mut out, &mut st, &format!("{id}-{case_no}"), lc, &mut parser, &text, &[], &[], &kind);
         }
     }
     out.flush().unwrap();
